@@ -1062,7 +1062,7 @@ func runUnpackStream(o *Opts) {
 			if rng.Chance(20) {
 				// allow-listed locations outside dst: absolute, relative to dst, one or two levels up;
 				// mostly with a link whose text (read from dst) names the allow-listed place
-				pairs := [][2]string{{"/w/victim", "../victim"}, {"../victim", "../victim"}, {"../../shared/", "../../shared/x"},
+				pairs := [][2]string{{"/w/victim", "../victim"}, {"../victim", "../victim"}, {"../../shared/", "../../shared/x"}, {"../../shared", "../../shared"},
 					{"../shared", "../shared/x"}, {"/w/dst-evil/", "../dst-evil/x"}, {"../dst-evil", "../dst-evil"}}
 				pr := pairs[rng.Intn(len(pairs))]
 				c.Allow = []string{pr[0]}
